@@ -186,8 +186,9 @@ def main():
     # 1. translator
     ex = run_extract()
     module = spec["lean"]
-    closure = lean_imports(module) | lean_imports("SymfcModel")
-    gens_needed = set(spec.get("gen", [])) | {m.split(".")[-1] for m in closure if ".Gen." in m}
+    # the generated files this property's theorems and correspondence checks really depend on (registry);
+    # a Gen file that could not be regenerated keeps its previous content, so unrelated properties still build
+    gens_needed = set(spec.get("gen", []))
     for e in ex.get("errors", []):
         if e["gen"] == "*" or e["gen"] in gens_needed:
             broken.append({"kind": "translator", "what": e["error"]})
@@ -246,8 +247,8 @@ def main():
     oracle_fail = []
     for o in spec.get("oracle", []):
         budget = dict(o.get(tier, o.get("quick", {})))
-        if broken and "search" in o:
-            budget = dict(o["search"])
+        if broken:
+            budget = dict(o.get("search", o.get("thorough", budget)))
         rng = make_rng(seed, f"{pid}/{o['name']}")
         try:
             r = o["fn"](rng, **budget)
